@@ -191,6 +191,23 @@ def axis_conflicts(func_node):
     the number of constructs that were checkable (both sides tagged)."""
     checked = 0
     out = []
+    # a definition whose own name carries an axis tag returns a pure expression of the other axis
+    if isinstance(func_node, (ast.FunctionDef, ast.AsyncFunctionDef)):
+        ft = name_tag(func_node.name.lstrip('_')) if not func_node.name.lstrip('_').startswith(('xy', 'yx')) else None
+        if isinstance(ft, str):
+            for n in ast.walk(func_node):
+                if isinstance(n, ast.Return) and n.value is not None:
+                    v = n.value
+                    # np.array([<elt> for ...]) / [<elt> for ...]: look at the element
+                    while isinstance(v, ast.Call) and v.args and unparse(v.func, 0).split('.')[-1] in ('array', 'asarray', 'atleast_1d'):
+                        v = v.args[0]
+                    if isinstance(v, (ast.ListComp, ast.GeneratorExp)):
+                        v = v.elt
+                    vt = tag(v)
+                    if isinstance(vt, str) and _pure(v):
+                        checked += 1
+                        if vt != ft:
+                            out.append((n, f'`{func_node.name}` ({ft}) returns the {vt}-axis value `{unparse(v, 60)}`'))
     for n in ast.walk(func_node):
         # keyword arguments whose name carries a tag
         if isinstance(n, ast.Call):
@@ -414,7 +431,7 @@ def flip_tok(tok):
     return tok
 
 
-def mirror_compare(s1, s2):
+def mirror_compare(s1, s2, known_mirror=False):
     """Compare statement s2 with the axis-flip of s1.
     Returns ('mirror', 0) for an exact mirror, ('copy-paste', [(i, tok1, tok2)])
     for the copy-paste signature, (None, ...) otherwise."""
@@ -430,7 +447,7 @@ def mirror_compare(s1, s2):
     if not diffs:
         return 'mirror', []
     flipped_ok = sum(1 for i in range(len(t1)) if f1[i] == t2[i] and t1[i] != f1[i])
-    if len(diffs) <= 2 and flipped_ok >= 1 and all(t2[i] == t1[i] and f1[i] != t1[i] for i, _, _ in diffs):
+    if len(diffs) <= 2 and (flipped_ok >= 1 or known_mirror) and all(t2[i] == t1[i] and f1[i] != t1[i] for i, _, _ in diffs):
         return 'copy-paste', diffs
     return None, diffs
 
@@ -488,4 +505,4 @@ def mirror_functions(f1, f2):
         return None, None
     m1 = ast.Module(body=b1, type_ignores=[])
     m2 = ast.Module(body=b2, type_ignores=[])
-    return mirror_compare(m1, m2)
+    return mirror_compare(m1, m2, known_mirror=True)
